@@ -2,6 +2,7 @@ import Percival.Proofs.Http
 import Percival.Proofs.HttpSamples
 import Percival.Proofs.HttpRes
 import Percival.Proofs.HttpStep
+import Percival.Proofs.HttpReader
 /-!
 # C08 — the HTTP client is memory-safe and terminates cleanly on any server byte stream
 
@@ -392,5 +393,56 @@ example :
      | .fin true false 1 (some none) _ true _ _, .fin true false 1 (some (some x)) _ true _ _ =>
          decide (x.status = 200) && x.body == none
      | _, _ => false) = true := by decide +kernel
+
+open Percival.Model Percival.Model.HttpStep Percival.Proofs.HttpReader Percival.Proofs.NetbufRead in
+/-- **The scripted reader against the proved model of `netbuf_read.c`** (`Model.NetbufRead`, C07), step by step.
+`Model.HttpStep.Reader` keeps only the buffer *geometry* (`cap`/`bufpos`/`datalen`; the bytes a handler sees are a
+prefix of the stream inside `runAllR`).  Whenever it has the geometry of a `NetbufRead.R` in a consistent state
+(`Geo`: `bufpos ≤ datalen ≤ buflen = |buf|`) with no wait outstanding:
+
+1. `netbuf_read_consume(c)` followed by `netbuf_read_wait(k)` of `Model.NetbufRead` succeeds inside its buffer, shows
+   the old window without its first `c` bytes, is *immediate* exactly when `readerWait` answers at once, and
+   otherwise registers a transport read with room for `k` bytes in a buffer whose geometry — grown to
+   `max(2·buflen, k)`, compacted, or unchanged — is exactly that of the state `prep rd c k` which `readerWait` hands
+   to its event loop (`readerWait_eq`);
+2. a `recv` which delivers `d` (non-empty, within the space offered) makes `callback_read` append `d` to the
+   window, add `|d|` to `datalen` — what `fill` does to its count — and complete the wait (status 0) exactly when
+   `waitlen` bytes are buffered, which is `fill`'s test.
+
+Full statement, **not proved** (`exec_reader_refines_netbuf`): for every script of `recv` answers and every sequence of
+waits the HTTP model issues, `readerWait rd c k` answers `.more e` / `.eof` / `.err` exactly when `Model.NetbufRead`, driven
+over the same script (`recvOne` with the space `buflen - datalen` of its own request, the stream's bytes cut
+accordingly), invokes the callback with status 0 and `k + e` bytes in its window / 1 / -1, with equal geometry
+afterwards.  Missing: the induction over `fill` which chains (2) along the script (it needs `recvOne` on two readers
+which differ only in geometry, and `NetbufRead.callbackRead` for EOF / error as in `Proofs.NetbufRead.net_end_rel`).
+With it, `C07.reader_refines` would make the window the abstract stream's `received.drop consumed`; the counts the run
+uses (`avail + remaining` is kept, `.eof` only with the whole stream received) are proved directly in
+`Proofs.HttpStep.readerWait_spec`. -/
+theorem exec_reader_refines_netbuf_partial :
+    (∀ (rd : Reader) (nb : NetbufRead.R) (c k : Nat), Geo nb → nb.pending = .none → SameGeo rd nb →
+      c ≤ nb.datalen - nb.bufpos →
+      ∃ nb2, (NetbufRead.consume nb c >>= fun nb1 => NetbufRead.wait nb1 k) = .ok nb2 ∧ Geo nb2 ∧
+        window nb2 = (window nb).drop c ∧
+        (k ≤ nb.datalen - nb.bufpos - c →
+          nb2.pending = .immediate ∧ SameGeo { rd with bufpos := rd.bufpos + c } nb2) ∧
+        (¬ k ≤ nb.datalen - nb.bufpos - c →
+          nb2.pending = .read ∧ nb2.waitlen = k ∧ k ≤ nb2.buflen - nb2.bufpos ∧ SameGeo (prep rd c k) nb2)) ∧
+    (∀ (nb : NetbufRead.R) (d : List UInt8), Geo nb → nb.pending = .read → nb.waitlen ≤ nb.buflen - nb.bufpos →
+      d.length ≠ 0 → d.length ≤ nb.buflen - nb.datalen →
+      ∃ nb' st, NetbufRead.callbackRead nb (.data d) = .ok (nb', st) ∧ Geo nb' ∧ window nb' = window nb ++ d ∧
+        nb'.buflen = nb.buflen ∧ nb'.bufpos = nb.bufpos ∧ nb'.datalen = nb.datalen + d.length ∧
+        nb'.waitlen = nb.waitlen ∧
+        (nb.waitlen ≤ nb.datalen + d.length - nb.bufpos → st = some 0 ∧ nb'.pending = .none) ∧
+        (¬ nb.waitlen ≤ nb.datalen + d.length - nb.bufpos → st = none ∧ nb'.pending = .read)) :=
+  ⟨fun rd nb c k h1 h2 h3 h4 => wait_geometry rd nb c k h1 h2 h3 h4,
+   fun nb d h1 h2 h3 h4 h5 => recv_geometry nb d h1 h2 h3 h4 h5⟩
+
+open Percival.Model Percival.Model.HttpStep Percival.Proofs.HttpReader Percival.Proofs.NetbufRead in
+/-- the hypotheses hold at the start of every case (the reader of `initReader` has the geometry of
+    `netbuf_read_init`'s state), and for a reader with a transport read outstanding -/
+example : Geo NetbufRead.init ∧ NetbufRead.init.pending = .none ∧
+    SameGeo (initReader {} []) NetbufRead.init ∧
+    Geo { NetbufRead.init with pending := .read, waitlen := 5 } :=
+  ⟨rel_init.geo, rfl, ⟨rfl, rfl, rfl⟩, ⟨rel_init.geo.len, Nat.le_refl _, Nat.zero_le _⟩⟩
 
 end Percival.C08
